@@ -36,7 +36,7 @@ def run(ctx):
                 seen.add(k)
                 uniq.append(t)
         traces = uniq
-        if len(traces) < 1400:
+        if len(traces) < 1800:
             ctx.fail("too few behaviours generated: %d" % len(traces))
     routers = sorted({t[0]["r"] for t in traces})
     out = ctx.driver(b, ["genesis-replay"], input_obj=traces)
